@@ -145,7 +145,21 @@ class KGAdverb:
 
 
 class KGChar(str):
-    pass
+    # A character never equals a symbol.  KGSym.__eq__ already refuses anything that is
+    # not a symbol; without the mirror image here `KGChar('a') == KGSym('a')` was True
+    # (inherited str.__eq__) while `KGSym('a') == KGChar('a')` was False, so a dictionary
+    # holding the key 0ca was found / overwritten / removed by :a but not vice versa.
+    def __eq__(self, o):
+        if isinstance(o, KGSym):
+            return False
+        return str.__eq__(self, o)
+
+    def __ne__(self, o):
+        if isinstance(o, KGSym):
+            return True
+        return str.__ne__(self, o)
+
+    __hash__ = str.__hash__
 
 
 class KGCond(list):
